@@ -1,4 +1,5 @@
 import BufProofs.Lemmas.DepsLemmas
+import BufProofs.Lemmas.LockLemmas
 /-
   C10 — Workspace dependency resolution is exact and ambiguity is an error.
   Property theorems over BufModel.Graph.  Proved here: the selection clauses (target over
@@ -502,5 +503,121 @@ theorem cycle_iff_unresolved_counterexample :
     ReachPlus (msuccO exWs4) 0 0 ∧ moduleDeps exWs4 0 = .error .importNotExist :=
   ⟨⟨1, msucc exWs4 1, Reach.step (Reach.refl 0) (rfl : msuccO exWs4 0 = some (msucc exWs4 0)) (by decide), rfl, by decide⟩,
    by decide⟩
+
+/-! ### workspaces on disk: every buf.lock of the workspace is honoured
+
+  `v1Adds` / `v2Adds` (BufModel.Graph §3b) are the AddRemoteModule / AddLocalModule sequences of
+  bufworkspace.  What the property needs from them: a remote module pinned in the buf.lock of ANY
+  module directory of a v1 workspace — targeted by the input or not — is a member of the module
+  set (as that pin, as a newer pinned commit, or as the local module of that identity), so that a
+  dependency reachable only through a non-targeted sibling resolves. -/
+
+/-- `selectAdded` returns one of the modules it was given. -/
+theorem selectAdded_mem (as : List Added) (a : Added) (h : selectAdded as = some a) : a ∈ as := by
+  unfold selectAdded at h
+  split at h
+  next => exact selectIgnoreTargeting_mem as a h
+  next t heq =>
+    injection h with h; subst h
+    have : t ∈ as.filter (·.isTarget) := by rw [heq]; exact List.mem_cons_self
+    exact (List.mem_filter.mp this).1
+  next => exact (List.mem_filter.mp (selectIgnoreTargeting_mem _ a h)).1
+
+/-- … and it always returns one when at least one module was added for the OpaqueID. -/
+theorem selectAdded_isSome (as : List Added) (h : as ≠ []) : ∃ a, selectAdded as = some a := by
+  unfold selectAdded
+  split
+  next => exact selectIgnoreTargeting_isSome h
+  next => exact ⟨_, rfl⟩
+  next hne _ => exact selectIgnoreTargeting_isSome hne
+
+/-- `getUniqueSortedAddedModulesByOpaqueID` drops no OpaqueID: every added module is represented
+    in the module set by a module of its OpaqueID that was itself added. -/
+theorem uniqueAdded_covers (as : List Added) (x : Added) (hx : x ∈ as) :
+    ∃ a ∈ uniqueAdded as, a.oid = x.oid ∧ a ∈ as := by
+  have hne : as.filter (fun a => a.oid == x.oid) ≠ [] := by
+    intro h
+    have : x ∈ as.filter (fun a => a.oid == x.oid) := List.mem_filter.mpr ⟨hx, by simp⟩
+    rw [h] at this; simp at this
+  obtain ⟨a, ha⟩ := selectAdded_isSome _ hne
+  have hmem := List.mem_filter.mp (selectAdded_mem _ a ha)
+  refine ⟨a, ?_, by simpa using hmem.2, hmem.1⟩
+  unfold uniqueAdded
+  refine List.mem_filterMap.mpr ⟨x.oid, ?_, ha⟩
+  exact (mem_sortBy natLe).mpr (mem_dedup.mpr (List.mem_map.mpr ⟨x, hx, rfl⟩))
+
+/-- v1 (buf.work.yaml): the pins of the buf.lock of EVERY module directory are added, as
+    non-target remote modules — whatever `m.loc.isTarget` is, i.e. whether or not the input
+    targets that directory. -/
+theorem v1_every_lock_honoured (ms : List LockedMod) (m : LockedMod) (hm : m ∈ ms) (p : Added)
+    (hp : p ∈ m.pins) : p.asPin ∈ v1Adds ms := by
+  unfold v1Adds
+  exact List.mem_flatMap.mpr ⟨m, hm, List.mem_append_left _ (List.mem_map.mpr ⟨p, hp, rfl⟩)⟩
+
+/-- v1: every module directory of the workspace is added, targeted or not. -/
+theorem v1_every_module_added (ms : List LockedMod) (m : LockedMod) (hm : m ∈ ms) :
+    m.loc ∈ v1Adds ms := by
+  unfold v1Adds
+  exact List.mem_flatMap.mpr ⟨m, hm, List.mem_append_right _ List.mem_cons_self⟩
+
+/-- v1: nothing else is added (no pin is invented, none becomes a target or local). -/
+theorem v1_adds_sound (ms : List LockedMod) (a : Added) (ha : a ∈ v1Adds ms) :
+    ∃ m ∈ ms, a = m.loc ∨ ∃ p ∈ m.pins, a = p.asPin := by
+  unfold v1Adds at ha
+  obtain ⟨m, hm, h⟩ := List.mem_flatMap.mp ha
+  refine ⟨m, hm, ?_⟩
+  rcases List.mem_append.mp h with h | h
+  · obtain ⟨p, hp, rfl⟩ := List.mem_map.mp h
+    exact Or.inr ⟨p, hp, rfl⟩
+  · exact Or.inl (by simpa using h)
+
+/-- v1: a module pinned in the buf.lock of any module directory is in the module set under its
+    OpaqueID — also when only a sibling directory is the input. -/
+theorem v1_pinned_in_module_set (ms : List LockedMod) (m : LockedMod) (hm : m ∈ ms) (p : Added)
+    (hp : p ∈ m.pins) : ∃ a ∈ uniqueAdded (v1Adds ms), a.oid = p.oid := by
+  obtain ⟨a, ha, hoid, _⟩ := uniqueAdded_covers _ _ (v1_every_lock_honoured ms m hm p hp)
+  exact ⟨a, ha, hoid⟩
+
+/-- v1: when nothing competes for the OpaqueID (no local module of that identity, no other
+    commit pinned in another buf.lock) the module set contains exactly that pin: remote and not a
+    target. -/
+theorem v1_sole_pin_selected (ms : List LockedMod) (m : LockedMod) (hm : m ∈ ms) (p : Added)
+    (hp : p ∈ m.pins) (hu : ∀ x ∈ v1Adds ms, x.oid = p.oid → x = p.asPin) :
+    p.asPin ∈ uniqueAdded (v1Adds ms) := by
+  obtain ⟨a, ha, hoid, hmem⟩ := uniqueAdded_covers _ _ (v1_every_lock_honoured ms m hm p hp)
+  have : a = p.asPin := hu a hmem hoid
+  rw [← this]; exact ha
+
+/-- v2: the pins of the top-level buf.lock and all modules of buf.yaml are added. -/
+theorem v2_lock_honoured (lock locs : List Added) (p : Added) (hp : p ∈ lock) :
+    p.asPin ∈ v2Adds lock locs ∧ ∃ a ∈ uniqueAdded (v2Adds lock locs), a.oid = p.oid := by
+  have h : p.asPin ∈ v2Adds lock locs := by
+    unfold v2Adds
+    exact List.mem_append_left _ (List.mem_map.mpr ⟨p, hp, rfl⟩)
+  obtain ⟨a, ha, hoid, _⟩ := uniqueAdded_covers _ _ h
+  exact ⟨h, a, ha, hoid⟩
+
+/-- the same pin in a targeted and in a non-targeted module's lock, a conflicting older commit in
+    a third lock and a local module that shadows another pin: T = directory 0 is the only target;
+    r (oid 3) is pinned by the non-targeted sibling only, at commits 1 (ctime 10) and 2 (ctime 20);
+    oid 1 is pinned by T but is also the sibling's own identity. -/
+def exLockT : LockedMod :=
+  { pins := [{ oid := 1, isLocal := false, isTarget := false, commit := 7, ctime := 5, files := [] }],
+    loc := { oid := 0, isLocal := true, isTarget := true, commit := 0, ctime := 0, files := [] } }
+def exLockS : LockedMod :=
+  { pins := [{ oid := 3, isLocal := false, isTarget := false, commit := 1, ctime := 10, files := [] }],
+    loc := { oid := 1, isLocal := true, isTarget := false, commit := 0, ctime := 0, files := [] } }
+def exLockU : LockedMod :=
+  { pins := [{ oid := 3, isLocal := false, isTarget := false, commit := 2, ctime := 20, files := [] }],
+    loc := { oid := 2, isLocal := true, isTarget := false, commit := 0, ctime := 0, files := [] } }
+
+example : (uniqueAdded (v1Adds [exLockT, exLockS, exLockU])).map (fun a => (a.oid, a.commit, a.isLocal, a.isTarget)) =
+    [(0, 0, true, true), (1, 0, true, false), (2, 0, true, false), (3, 2, false, false)] := by decide
+
+/-- honouring only the buf.lock files of TARGETED modules (a plausible "optimisation") loses the
+    remote module the target reaches through its sibling: the model of that variant differs. -/
+theorem only_target_locks_counterexample :
+    ¬ ∃ a ∈ uniqueAdded (v1Adds ([exLockT, exLockS, exLockU].map
+        (fun m => if m.loc.isTarget then m else { m with pins := [] }))), a.oid = 3 := by decide
 
 end BufProofs.C10
